@@ -111,8 +111,8 @@ impl WhereClauseBuilder {
         for ty in &self.types {
             // `A + B: Trait` and `&'a A + B` are not well-formed, `(A + B): Trait` and `&'a (A + B)` are.
             let ty = match ty {
-                Type::TraitObject(t) if t.bounds.len() > 1 => syn::parse_quote!((#ty)),
-                Type::ImplTrait(t) if t.bounds.len() > 1 => syn::parse_quote!((#ty)),
+                Type::TraitObject(t) if (t.bounds.len() > 1 || t.bounds.trailing_punct()) => syn::parse_quote!((#ty)),
+                Type::ImplTrait(t) if (t.bounds.len() > 1 || t.bounds.trailing_punct()) => syn::parse_quote!((#ty)),
                 _ => ty.clone(),
             };
             ws.push(f(&ty));
